@@ -286,6 +286,9 @@ def gen_data(r, tbl: Table, depth, probe, clsname=None, generic=False):
             e.update({"name": e["name"] + str(j), "default": None, "init": True, "alias_meta": None, "alias_ann": None,
                       "alias_cfg": None, "alias": None})
         fields[0:0] = extra
+    if generic and r.random() < 0.6:
+        cfg["omit_none"] = True
+        cfg["via_dialect"] = r.random() < 0.3
     for i, f in enumerate(fields):
         f["ser"] = None
         # overridden serialization of a field (default options otherwise): a function with a return annotation
@@ -501,9 +504,14 @@ def gen_type(r, tbl: Table, depth, probe):
                 d0 = r.choice(datas)
                 d = gen_data(r, tbl, depth, probe, clsname=d0["clsname"])
                 return ("data", d["name"])
-        if probe and r.random() < 0.2:
+        if r.random() < (0.2 if probe else 0.12):
+            # a generic dataclass (one fresh class per use, so no two specialisations share the bare name) specialised with a
+            # plain, an Optional / Union-with-None, a None / Any or a container argument: the nullability of a field declared
+            # as the bare type variable is that of the argument (since /repo 4da7e9e), which matters under omit_none
             d = gen_data(r, tbl, depth, probe, generic=True)
-            arg = r.choice([("int",), ("str",), ("leaf", "date")])
+            arg = r.choice([("int",), ("str",), ("leaf", "date"), ("opt", ("int",)), ("opt", ("str",)), ("none",), ("any",),
+                            ("list", ("opt", ("int",))), ("opt", ("leaf", "date")),
+                            ("dict", ("str",), ("int",))])
             return ("gdata", d["name"], [arg])
         datas = [d for d in tbl.decls if d["kind"] == "data" and not d["tvars"]]
         if datas and r.random() < 0.3:      # reuse (shared definitions)
